@@ -88,23 +88,24 @@ func (e *Encoder) writeMap(data interface{}) (int, error) {
 	// object data MUST not be unpacked
 	vv := reflect.ValueOf(data)
 
+	// a nil or empty map is written as null, which is not a reference target for the
+	// decoder: check it before a reference ordinal is assigned
+	uv := UnpackPtrValue(vv)
+	if uv.Kind() == reflect.Ptr && !uv.Elem().IsValid() {
+		e.writeBT(_nilTag)
+		return 0, nil
+	}
+	if uv.Len() == 0 {
+		e.writeBT(_nilTag)
+		return 0, nil
+	}
+
 	// check ref
 	if n, ok := e.checkEncodeRefMap(vv); ok {
 		return e.writeRef(n)
 	}
 
-	vv = UnpackPtrValue(vv)
-	// check nil map
-	if vv.Kind() == reflect.Ptr && !vv.Elem().IsValid() {
-		e.writeBT(_nilTag)
-		return 0, nil
-	}
-
-	keys := vv.MapKeys()
-	if len(keys) == 0 {
-		e.writeBT(_nilTag)
-		return 0, nil
-	}
+	vv = uv
 
 	typ := vv.Type()
 
